@@ -59,6 +59,11 @@ def home(kind):
         h.import_key(keys.VALID_PUBLIC_KEY if kind == 'public' else keys.PRIVATE_KEY)
         h.set_trust(keys.KEY_FINGERPRINT, 6)
         if kind == 'two':
+            # (a third key, earlier in the keyring, whose user id shares a word with
+            # the second key's: selecting "Second Key" must not pick it up)
+            h.gpg(['--pinentry-mode', 'loopback', '--passphrase', '',
+                   '--quick-gen-key', 'Key Zero <zero@example.com>', 'ed25519', 'sign',
+                   'never'])
             rc, out, err = h.gpg(['--pinentry-mode', 'loopback', '--passphrase', '',
                                   '--quick-gen-key', 'Second Key <second@example.com>',
                                   'ed25519', 'sign', 'never'])
@@ -71,7 +76,8 @@ def home(kind):
             h.second_fpr = fprs[0]
             h.set_trust(h.second_fpr, 6)
             with open(os.path.join(h.dir, 'gpg.conf'), 'a') as f:
-                f.write('default-key %s\n' % keys.KEY_FINGERPRINT)
+                # (the configured default is NOT the first secret key of the keyring)
+                f.write('default-key %s\n' % h.second_fpr)
         _homes[kind] = h
         atexit.register(h.close)
     return _homes[kind]
@@ -137,8 +143,11 @@ def _judge(ctx, root, case, sign, orig_signed, keyid, hk, top_name, top, h, sign
     expect = 'plain' if not expect_signed else (
         'signed' if can_sign and not longline else 'failure')
     want_fpr = keys.KEY_FINGERPRINT
-    if keyid == 'second':
+    if keyid in ('second', 'second-uid') or (hk == 'two' and keyid == 'default'):
+        # (explicitly, or through `default-key` in that home's gpg.conf)
         want_fpr = home('two').second_fpr
+        if keyid == 'default':
+            ctx.count('configured_default_key_cases')
     ctx.count('expect:' + expect)
     ctx.case(sig=('c14', sign, orig_signed, keyid, hk, case['api'], top_name,
                   case.get('watermark')), case=case, nontrivial=expect != 'plain',
@@ -158,7 +167,9 @@ def _judge(ctx, root, case, sign, orig_signed, keyid, hk, top_name, top, h, sign
         go.GNUPG = script
     os.environ['GNUPGHOME'] = h.dir
     kid = {'default': None, 'explicit': keys.KEY_ID, 'wrong': '0xDEADBEEFDEADBEEF',
-           'second': getattr(h, 'second_fpr', None)}[keyid]
+           'second': getattr(h, 'second_fpr', None),
+           # selected by user id, which contains a blank
+           'second-uid': 'Second Key'}[keyid]
     outcome = None
     try:
         if case['api'] == 'cli':
@@ -308,7 +319,7 @@ def _judge(ctx, root, case, sign, orig_signed, keyid, hk, top_name, top, h, sign
                           'written top-level Manifest (rc=%d)' % rc, case,
                           dict(detail, status=status[-600:]))
             return
-        if want_fpr not in fprs:
+        if want_fpr not in fprs or set(fprs) != {want_fpr}:
             ctx.violation('signed-with-other-key:' + keyid, 'the written top-level '
                           'Manifest is signed by %r, the signing key (%s) is %s'
                           % (fprs, keyid, want_fpr), case,
@@ -378,6 +389,8 @@ def gen_case(rng, root):
         else 'update'
     if case['home'] == 'two':
         case['keyid'] = rng.choice(['default', 'explicit', 'second', 'second', 'wrong'])
+        if case['keyid'] == 'second' and len(case['skel']['nodes']) % 2 == 0:
+            case['keyid'] = 'second-uid'
     if case['home'] == 'late':
         case['api'] = 'lib'
         case['force'] = True
